@@ -374,6 +374,12 @@ def check(ctx):
     sends = gp.find(lambda q: method_call(q, 'send_packet'))
     ctx.inst('R12', pu, 'send-only-with-link', all(fact_key('self.cf.link', True) in gp.fact_keys_at(n) for n, _ in sends) and bool(sends),
              'a request is transmitted (and the lock kept) only while a link exists; otherwise the lock is handed back')
+    # ... a link that was looked at AFTER the wait: acquire() blocks until the previous reply arrives or the session is closed, a test
+    # made before it says nothing about the link at the time of the transmission
+    link_tests = [n for n in gp.nodes if n.kind in ('if', 'while') and any(norm(x) == 'self.cf.link' for x in ast.walk(n.ast.test))]
+    fresh = [t for t in link_tests if gp.dominates(acq[0][0], t) and all(gp.dominates(t, n) for n, _ in sends)]
+    ctx.inst('R12', pu, 'link-tested-after-the-wait', bool(sends) and bool(fresh),
+             'between wait_lock.acquire() and the transmission the link is tested again (tests of the link: lines %s, acquire at line %d)' % ([t.line for t in link_tests], acq[0][0].line))
     cl2 = m.func('cflib/crazyflie/param.py', '_ParamUpdater.close')
     rel = [c for c in walk_own(cl2.node) if method_call(c, 'release') and norm(c.func.value) == 'self.wait_lock']
     dr = [c for c in walk_own(cl2.node) if method_call(c, 'get') and norm(c.func.value) == 'self.request_queue']
